@@ -180,6 +180,40 @@ pub fn replay_kept(case: &Value, _run: &Run) -> Acc {
     acc
 }
 
+/// integers above i64::MAX (stored as u64): neighbours that round to one f64 are different elements
+fn big_integers_part() -> Acc {
+    let a = json!(18446744073709551615u64);
+    let b = json!(18446744073709551614u64);
+    let c = json!(9223372036854775808u64);
+    let d = json!(9223372036854775809u64);
+    let e = json!(9223372036854775807i64);
+    let nums = [a.clone(), b.clone(), c.clone(), d.clone(), e.clone()];
+    let mut lists: Vec<Option<Value>> = vec![Some(json!([]))];
+    for x in &nums {
+        lists.push(Some(json!([x])));
+        lists.push(Some(json!([[x]])));
+        lists.push(Some(json!([{"k": x}, 1])));
+        for y in &nums {
+            lists.push(Some(json!([x, y])));
+        }
+    }
+    let scalars: Vec<Option<Value>> = nums.iter().cloned().map(Some).chain([Some(json!([a.clone()])), Some(json!({"k": c.clone()})), None]).collect();
+    let mut acc = Acc::new();
+    for l in &lists {
+        for f in ["any_of", "none_of", "subset_of"] {
+            let expect: Vec<bool> = lists.iter().map(|x| oracle(f, x, l)).collect();
+            let doc = cell_doc(l, &lists, false);
+            judge(&mut acc, &format!("$.elems[?{}(@.x,$.l)]", f), &doc, &expect, "integers above i64::MAX", &|i| format!("{}({}, {}) must be {}", f, lists[i].clone().unwrap(), l.clone().unwrap(), expect[i]));
+        }
+        for f in ["in", "nin"] {
+            let expect: Vec<bool> = scalars.iter().map(|x| oracle(f, x, l)).collect();
+            let doc = cell_doc(l, &scalars, false);
+            judge(&mut acc, &format!("$.elems[?{}(@.x,$.l)]", f), &doc, &expect, "integers above i64::MAX", &|i| format!("{}({}, {}) must be {}", f, scalars[i].clone().map(|v| v.to_string()).unwrap_or("<missing>".into()), l.clone().unwrap(), expect[i]));
+        }
+    }
+    acc
+}
+
 /// computed first arguments of in / nin: the Boolean of a parenthesised or negated logical expression, and the
 /// results of length / count / value - each depends on the child under test
 fn computed_first_part() -> Acc {
@@ -409,7 +443,7 @@ pub fn run(tier: &str) -> i32 {
         }
         acc
     };
-    let acc = acc.merge(long_acc).merge(aliased_part(th)).merge(literal_spellings_part()).merge(relative_pairs_part(th)).merge(computed_first_part());
+    let acc = acc.merge(long_acc).merge(aliased_part(th)).merge(literal_spellings_part()).merge(relative_pairs_part(th)).merge(computed_first_part()).merge(big_integers_part());
     run.finish(
         acc,
         "one case = one (function, first argument, second argument, argument form); all first arguments are packed into one document per second argument; aliased arguments: both arguments from the document, as one node (`f(@.x,@.x)`, `f(@,@)`) and through an absolute path to a member of child k for every k; oracle = set membership as the property states it (false for a missing or non-array argument); non-trivial = the test is true",
